@@ -123,6 +123,8 @@ func runC03(c *Check) {
 
 	// O3 typestate
 	c03Typestate(c, P, m, closedGlobal)
+	// every exit of Ack/Nack releases the mutex ("no call blocks")
+	la.ReportLeaks(c, P+".O4", []*ssa.Function{m.Ack, m.Nack})
 
 	// O4 non-blocking
 	for _, fn := range []*ssa.Function{m.Ack, m.Nack} {
